@@ -5,6 +5,7 @@ import (
 	"github.com/aml-org/amf-custom-validator/internal/misc"
 	"github.com/aml-org/amf-custom-validator/internal/parser/path"
 	"github.com/aml-org/amf-custom-validator/internal/parser/profile"
+	"strings"
 )
 
 type RegoPathResult struct {
@@ -150,6 +151,21 @@ func aggregateResultsIntoArray(paths []regoPathResultInternal) RegoPathResult {
 	}
 	if len(rego) > 0 {
 		rego = append(rego, "]")
+	}
+	if len(paths) > 1 {
+		// a comprehension cannot have several clauses ("} {" is only valid between the bodies of a rule): with
+		// alternative paths the array is the concatenation of one comprehension per alternative
+		rego = make([]string, 0)
+		expr := ""
+		for i, p := range paths {
+			part := "[ nodes |\n  " + strings.Join(p.rego, "\n  ") + "\n]"
+			if i == 0 {
+				expr = part
+			} else {
+				expr = fmt.Sprintf("array.concat(%s, %s)", expr, part)
+			}
+		}
+		rego = append(rego, fmt.Sprintf("%s = %s", ruleName, expr))
 	}
 
 	return RegoPathResult{
